@@ -134,6 +134,39 @@ impl Prop for C04 {
         })
     }
 
+    /// Flow-control window edge sweep: a first message leaves 0..6 bytes of credit in yamux's
+    /// 256 KiB receive window while the receiver does not read yet; the next message's length
+    /// prefix (1, 2 or 3 bytes) then arrives split in two pieces with a poll in between (seeded
+    /// change C04-6: the prefix cursor kept in a local variable).
+    fn systematic(&self, tier: Tier) -> Vec<Value> {
+        let mut v = Vec::new();
+        let seconds: &[u64] = if tier == Tier::Quick { &[1, 127, 128, 200, 16_384] } else { &[1, 127, 128, 200, 16_383, 16_384, 70_000, 262_144] };
+        let mut k = 0u64;
+        for left in 0..=6u64 {
+            for second in seconds {
+                for api in ["framed", "send"] {
+                    k += 1;
+                    // a message of 16 384 .. 2 097 151 bytes carries a 3-byte prefix
+                    let first = 262_144 - left - 3;
+                    v.push(json!({
+                        "property": "C04", "seed": 9_040_000 + k, "sched": {"kind": "fifo"},
+                        "carrier": {"max_chunk": 65536, "short_write": false, "pending_pct": 0, "window": 1 << 22},
+                        "codec": {"kind": "varint", "max": 400_000},
+                        "ops": [
+                            {"k": 0, "size": first, "api": api, "flush_after": true},
+                            {"k": 1, "size": *second, "api": api, "flush_after": true},
+                            {"k": 2, "size": 5, "api": api, "flush_after": true},
+                        ],
+                        "raw": Value::Null,
+                        "stalls_ms": [3000, 0, 0, 0],
+                        "split": 16_384,
+                    }));
+                }
+            }
+        }
+        v
+    }
+
     fn run(&self, case: &Value, verbose: bool) -> RunOutput {
         let case = case.clone();
         let seed = case["seed"].as_u64().unwrap_or(0);
